@@ -2,6 +2,7 @@
 
 use std::collections::BTreeSet;
 
+use crate::bignat::{z, Z};
 use crate::cover::Cover;
 use crate::ops::*;
 use crate::step::*;
@@ -176,15 +177,18 @@ pub fn run(ctx: &Ctx, cov: &mut Cover) {
     };
     // ---- C11
     if let Some(mr) = r.min_receive {
-        let gain = ctx.view.post(&final_key, &recipient) as i128
-            - ctx.view.pre(&final_key, &recipient) as i128;
+        let gain = Z::diff(ctx.view.post(&final_key, &recipient), ctx.view.pre(&final_key, &recipient));
         let mut paid_by_recipient = if recipient == ctx.sender && r.input_key.as_deref() == Some(&final_key) {
-            r.input as i128
+            z(r.input)
         } else {
-            0
+            Z::zero()
         };
         if recipient == ctx.sender {
-            paid_by_recipient += r.extra.iter().filter(|(k, _)| *k == final_key).map(|(_, v)| *v as i128).sum::<i128>();
+            for (k, v) in r.extra.iter() {
+                if *k == final_key {
+                    paid_by_recipient += z(*v);
+                }
+            }
         }
         let quote = match &ctx.pre.route_quote {
             Some(Ok(q)) => Some(*q),
@@ -193,8 +197,8 @@ pub fn run(ctx: &Ctx, cov: &mut Cover) {
         let off = match quote {
             None => "noquote".to_string(),
             Some(q) => {
-                let d = mr as i128 - q as i128;
-                if d < -1 { "<-1".into() } else if d > 1 { ">+1".into() } else { format!("{:+}", d) }
+                let d = Z::diff(mr, q);
+                if d < -z(1) { "<-1".into() } else if d > z(1) { ">+1".into() } else { format!("{:+}", d) }
             }
         };
         cov.case(
@@ -212,7 +216,7 @@ pub fn run(ctx: &Ctx, cov: &mut Cover) {
         );
         if ctx.outcome.is_ok() {
             cov.eval("C11", "a");
-            if gain + paid_by_recipient < mr as i128 {
+            if gain.clone() + paid_by_recipient.clone() < z(mr) {
                 cov.violate(
                     "C11",
                     "a",
@@ -264,12 +268,12 @@ pub fn run(ctx: &Ctx, cov: &mut Cover) {
             recipient_class
         ),
     );
-    let gain = ctx.view.post(&final_key, &recipient) as i128 - ctx.view.pre(&final_key, &recipient) as i128;
+    let gain = Z::diff(ctx.view.post(&final_key, &recipient), ctx.view.pre(&final_key, &recipient));
     if let Some(Ok(q)) = &ctx.pre.route_quote {
         if simple_assets && recipient != m.router && !pair_ids.iter().any(|i| m.pairs[*i].addr == recipient) {
             cov.eval("C13", "a");
-            let own = if recipient == ctx.sender && r.input_key.as_deref() == Some(&final_key) { r.input as i128 } else { 0 };
-            if gain + own != *q as i128 {
+            let own = if recipient == ctx.sender && r.input_key.as_deref() == Some(&final_key) { z(r.input) } else { Z::zero() };
+            if gain.clone() + own != z(*q) {
                 cov.violate(
                     "C13",
                     "a",
@@ -286,8 +290,8 @@ pub fn run(ctx: &Ctx, cov: &mut Cover) {
     if let Some(ik) = &r.input_key {
         if simple_assets && recipient != ctx.sender {
             cov.eval("C13", "b");
-            let fall = ctx.view.pre(ik, ctx.sender) as i128 - ctx.view.post(ik, ctx.sender) as i128;
-            if fall != r.input as i128 {
+            let fall = Z::diff(ctx.view.pre(ik, ctx.sender), ctx.view.post(ik, ctx.sender));
+            if fall != z(r.input) {
                 cov.violate(
                     "C13",
                     "b",
